@@ -92,3 +92,60 @@ _NT = len(cat.TREES)
 for _lo in range(0, _NT, 6):
     _mk_comp(_lo, min(_NT, _lo + 6), ("quick",), 900, 60)
     _mk_comp(_lo, min(_NT, _lo + 6), ("thorough",), 3000, 200)
+
+
+# --- one Text object used as a title / label / header AND as ordinary content (rendering must not alter its argument) ---------
+from rich.console import RenderGroup  # noqa: E402
+from rich.panel import Panel  # noqa: E402
+from rich.rule import Rule  # noqa: E402
+from rich.table import Table  # noqa: E402
+from rich.text import Text  # noqa: E402
+from rich.tree import Tree  # noqa: E402
+
+
+def _shared_holder(kind, t):
+    body = Text("all targets are up to date")
+    if kind == 0:
+        return Panel(body, title=t)
+    if kind == 1:
+        return Panel.fit(body, title=t)
+    if kind == 2:
+        tb = Table(title=t, caption=t)
+        tb.add_column(t)
+        tb.add_row(body)
+        return tb
+    if kind == 3:
+        return Rule(t)
+    tr = Tree(t)
+    tr.add(t)
+    return tr
+
+
+@symx("C01-shared-text-object", timeout=600, kind="C+S", functions=F_C + ["rich/panel.py:Panel._title"],
+      bounds="ONE Text object (3 contents, optionally styled and right-justified) used as the title of a Panel / Panel.fit / Table "
+             "(title, caption and header) / Rule / Tree label and then again as ordinary content of the same group, followed by "
+             "another Text; the group is rendered twice at every width 8..48 (solver-enumerated, native): no line is wider than "
+             "the width, and (except after Rule, which truncates the caller's Text in place - observed, outside C01) the lines of "
+             "the shared Text as content are those of a fresh Text of the same value")
+def c01_shared(e):
+    kind = int(e.mk("holder", 0, 4))
+    content = ["Build status", "中文 heading 字", "a heading that is longer than the body below it, really"][int(e.mk("content", 0, 2))]
+    styled = bool(e.mkbool("styled"))
+    w = int(e.mk("width", 8, 48))
+
+    def mk():
+        t = Text(content, style="bold" if styled else "", justify="right" if styled else None)
+        if styled:
+            t.stylize("red", 0, 3)
+        return t
+    t = mk()
+    c = cat.console()
+    group = RenderGroup(_shared_holder(kind, t), t, Text("12 passed, 0 failed"))
+    fresh_tail = cat.render_lines(c, RenderGroup(mk(), Text("12 passed, 0 failed")), w)
+    for _round in range(2):
+        lines = cat.render_lines(c, group, w)
+        if any(x > w for x in cat.widths(lines)):
+            return False
+        if kind != 3 and lines[len(lines) - len(fresh_tail):] != fresh_tail:
+            return False
+    return True
